@@ -232,7 +232,8 @@ def timed_cleanup_cases(draw):
         return {'tc': {'shape': 'bounded', 'deadlines': [draw(st.sampled_from([1, 2, 2.5]))], 'inner': inner, 'dur': 0}}
     k = draw(st.integers(1, 4))
     ds = draw(st.permutations([1, 2, 3, 4.5, 5]))[:k]
-    return {'tc': {'shape': 'nested', 'deadlines': list(ds), 'stages': draw(st.integers(max(1, k - 1), k + 1)), 'dur': 7}}
+    return {'tc': {'shape': 'nested', 'deadlines': list(ds), 'stages': draw(st.integers(max(1, k - 1), k + 1)), 'dur': 7,
+                   'handler': draw(st.booleans())}}
 
 
 @st.composite
@@ -476,7 +477,14 @@ class C07(Check):
             for j in reversed(range(m)):
                 emit(base + j, 'finally:')
                 emit(base + j + 1, "log('cleanup_begin')")
-                emit(base + j + 1, 'await (time + %r)' % dur)
+                if tc.get('handler'):
+                    # the clean-up waits inside the handler of an exception of its own
+                    emit(base + j + 1, 'try:')
+                    emit(base + j + 2, "raise KeyError('refused')")
+                    emit(base + j + 1, 'except KeyError:')
+                    emit(base + j + 2, 'await (time + %r)' % dur)
+                else:
+                    emit(base + j + 1, 'await (time + %r)' % dur)
                 emit(base + j + 1, "log('cleanup_end')")
             for i in reversed(range(len(ds))):
                 if i:
